@@ -13,8 +13,12 @@ A *case* is  `<Sig> ; <pool> ; <expr>`  e.g.  `V0 ; 1D 2V ; bind 0 2 LV ref d1 r
             H<r><q><m>      function pointer r(int, sigc::slot<q(int × m)>)    (like run_then(int, continuation))
             M<r><n> <obj>   mem_fun(obj, &T::m)                 S<r><n> <obj>  obj.make_slot()
             C<r><n> <obj>   signal_connect(sig, obj, &T::m)     (top level only)
-            bind <pos|L> <k> <f> <barg × k>      barg: val | ref <obj> | cref <obj> | copy <obj> | fun<r><n> <expr>
-                                                 (fun: the functor expression <expr>, of signature r(int × n), bound BY VALUE)
+            bind <pos|L> <k> <f> <barg × k>      barg: val | ref <obj> | cref <obj> | copy <obj> | xref <obj> | xcref <obj>
+                                                       | fun<r><n> <expr>
+                                                 (fun: the functor expression <expr>, of signature r(int × n), bound BY VALUE;
+                                                  xref / xcref: the object bound with an explicitly spelled reference type,
+                                                  `sigc::bind<I, F, …, T&, …>(f, …, obj, …)` / `sigc::bind_return<const T&>(f, obj)`:
+                                                  bound_argument<T&> keeps a reference to obj itself — referred to by reference)
             bret <f> <barg>   hide <pos|L> <f>   hret <f>   rt <f>   rtr <f>
             c1 <s> <g>   c2 <s> <g1> <g2>   ec <f> <c>   to <k> <f> <obj × k>   slot<r><n> <f>
           objects: d<id> v<id> u<id> (classes D V U), s<id> t<id> (signals)
@@ -28,6 +32,7 @@ SIG_CPP = {("V", 0): "void()", ("V", 1): "void(int)", ("I", 0): "int()", ("I", 1
 SIG_K = {("V", 0): 0, ("V", 1): 1, ("I", 0): 2, ("I", 1): 3}
 CLS_NAME = {"d": "vs::TD", "v": "vs::TV", "u": "vs::UT"}
 UNARY = ("hide", "hret", "rt", "rtr")
+XREF = ("xref", "xcref")     # bound with an explicitly spelled reference type (T& / const T&)
 
 # ----------------------------------------------------------------------------------------------
 # parsing / printing
@@ -93,7 +98,7 @@ def parse_expr(toks):
 def parse_barg(r):
     if r[0] == "val":
         return ("val",), r[1:]
-    if r[0] in ("ref", "cref", "copy"):
+    if r[0] in ("ref", "cref", "copy", "xref", "xcref"):
         return (r[0], r[1]), r[2:]
     if r[0].startswith("fun") and len(r[0]) == 5 and r[0][3] in "VI" and r[0][4].isdigit():
         e, rest = parse_expr(r[1:])
@@ -242,8 +247,30 @@ def bound_functors(n, acc=None, inside=False):
     return acc
 
 
+def bound_xrefs(n, acc=None, inside=False):
+    """every bound argument with an explicitly spelled reference type: (holder 'bind'|'bret', index in the bound tuple,
+    size of the tuple, bind position, kind 'xref'|'xcref', object, nested inside a functor bound by value?)"""
+    acc = acc if acc is not None else []
+    k = n[0]
+    funs = []
+    if k == "bind":
+        for i, b in enumerate(n[3]):
+            if b[0] in XREF:
+                acc.append(("bind", i, len(n[3]), n[1], b[0], b[1], inside))
+            if b[0] == "fun":
+                funs.append(b[3])
+    if k == "bret":
+        if n[2][0] in XREF:
+            acc.append(("bret", 0, 1, None, n[2][0], n[2][1], inside))
+        if n[2][0] == "fun":
+            funs.append(n[2][3])
+    for c in children(n):
+        bound_xrefs(c, acc, inside or any(c is f for f in funs))
+    return acc
+
+
 def objects(n, acc=None):
-    """every object occurrence as (how, obj): how in mf ms sc ref cref copy to"""
+    """every object occurrence as (how, obj): how in mf ms sc ref cref copy xref xcref to"""
     acc = acc if acc is not None else []
     k = n[0]
     if k in ("M", "S", "C"):
@@ -427,6 +454,48 @@ def cpp_obj(o):
     return "p.%s(%s)" % (o[0], o[1:])
 
 
+def cpp_btype(b, name):
+    """the explicitly spelled template argument of a bound value: `T&` / `const T&` for xref / xcref, the deduced type
+    (decltype of the by-value lambda parameter `name`) for everything else"""
+    if b[0] == "xref":
+        return "%s&" % CLS_NAME[b[1][0]]
+    if b[0] == "xcref":
+        return "const %s&" % CLS_NAME[b[1][0]]
+    return "decltype(%s)" % name
+
+
+def cpp_bind_explicit(n):
+    """a bind with at least one bound type spelled as an explicit reference.  sigc::bind()'s template parameters are
+    <[int I_location,] typename T_functor, typename... T_bound>, so the functor type has to be spelled too: the functor and
+    the bound values of deduced type are first made parameters of a generic lambda (by value, exactly as sigc::bind()
+    takes them), the referenced objects are named directly.
+      bind <I>  : sigc::bind<I, F, T_bound...>(f, b...)
+      bind L    : sigc::bind<-1, F, T_bound...>(f, b...)  or  sigc::bind<F, T_bound...>(f, b...)  (the overload without
+                  a position; chosen by the parity of the number of bound values + the first referenced object's id)"""
+    params = ["auto f"]
+    args = [cpp(n[2])]
+    types = []
+    calls = []
+    first = None
+    for i, b in enumerate(n[3]):
+        if b[0] in XREF:
+            first = first if first is not None else int(b[1][1:])
+            calls.append(cpp_obj(b[1]))
+            types.append(cpp_btype(b, None))
+        else:
+            nm = "b%d" % i
+            params.append("auto " + nm)
+            args.append(cpp_barg(b))
+            calls.append(nm)
+            types.append(cpp_btype(b, nm))
+    if n[1] is not None:
+        head = "%d, " % n[1]
+    else:
+        head = "-1, " if (len(n[3]) + first) % 2 == 0 else ""
+    return "[&p](%s) { return sigc::bind<%sdecltype(f), %s>(f, %s); }(%s)" % (
+        ", ".join(params), head, ", ".join(types), ", ".join(calls), ", ".join(args))
+
+
 def cpp_barg(b):
     if b[0] == "val":
         return "5"
@@ -459,9 +528,13 @@ def cpp(n):
     if k == "S":
         return "p.%s<%s>(%s).make_slot()" % (n[3][0], SIG_CPP[(n[1], n[2])], n[3][1:])
     if k == "bind":
+        if any(b[0] in XREF for b in n[3]):
+            return cpp_bind_explicit(n)
         loc = "" if n[1] is None else "<%d>" % n[1]
         return "sigc::bind%s(%s, %s)" % (loc, cpp(n[2]), ", ".join(cpp_barg(b) for b in n[3]))
     if k == "bret":
+        if n[2][0] in XREF:
+            return "sigc::bind_return<%s>(%s, %s)" % (cpp_btype(n[2], None), cpp(n[1]), cpp_obj(n[2][1]))
         return "sigc::bind_return(%s, %s)" % (cpp(n[1]), cpp_barg(n[2]))
     if k == "hide":
         loc = "" if n[1] is None else "<%d>" % n[1]
@@ -545,6 +618,7 @@ class Env:
         self.nid = nid
         self.signals = {}
         self.fun_w = 2      # weight of a functor-valued bound argument among the bound-argument kinds
+        self.xref_w = 3     # weight of an explicitly spelled T& (and 2/3 of it: const T&) among the bound-argument kinds
 
     def trackables(self):
         return [o for o in self.objs if o[0] != "u"]
@@ -573,7 +647,8 @@ class Env:
 def gen_barg(env, force_obj=False, dmax=0):
     """one bound argument; a functor bound by value has depth ≤ dmax"""
     rng = env.rng
-    k = rng.weighted([("val", 0 if force_obj else 3), ("ref", 5), ("cref", 3), ("copy", 2), ("fun", env.fun_w)])
+    k = rng.weighted([("val", 0 if force_obj else 3), ("ref", 5), ("cref", 3), ("copy", 2), ("fun", env.fun_w),
+                      ("xref", env.xref_w), ("xcref", (2 * env.xref_w + 2) // 3)])
     if k == "val":
         return ("val",)
     if k == "fun":
@@ -744,15 +819,18 @@ def gen(env, ret, args, d, exact=True):
 def random_case(rng, max_depth=3):
     """(sig, pool, node)"""
     focus = rng.chance(0.15)     # this case must contain a functor bound by value
-    for _ in range(200 if focus else 50):
+    xfocus = (not focus) and rng.chance(0.15)   # this case must contain a bound type spelled as an explicit reference
+    for _ in range(200 if (focus or xfocus) else 50):
         ntrk = rng.weighted([(1, 2), (2, 5), (3, 4)])
         env = Env(rng, ntrk, rng.chance(0.25))
         if focus:
             env.fun_w = 14
+        if xfocus:
+            env.xref_w = 12
         sig = rng.weighted([("V0", 4), ("I0", 2), ("V1", 3), ("I1", 2)])
         ret, n = SIGS[sig]
-        d = rng.weighted([(0, 0 if focus else 1), (1, 4), (2, 6), (3, 6)])
-        d = max(1, min(d, max_depth)) if focus else min(d, max_depth)
+        d = rng.weighted([(0, 0 if (focus or xfocus) else 1), (1, 4), (2, 6), (3, 6)])
+        d = max(1, min(d, max_depth)) if (focus or xfocus) else min(d, max_depth)
         if d == 0 and rng.chance(0.3) and n <= 1:
             node = ("C", ret, n, env.any_obj())
         else:
@@ -760,6 +838,8 @@ def random_case(rng, max_depth=3):
         if node is None:
             continue
         if focus and not bound_functors(node):
+            continue
+        if xfocus and not any(is_trackable_obj(x[5]) for x in bound_xrefs(node)):
             continue
         if not referenced(node) and rng.chance(0.9):
             continue
@@ -796,6 +876,10 @@ def skeleton_wrappers():
     W.append(("bind0-val-ref", bind_w(0, ("val", "ref"))))
     W.append(("bind1-copy-ref-ref", bind_w(1, ("copy", "ref", "ref"))))
     W.append(("bind0-cref", bind_w(0, ("cref",))))
+    # bound types spelled as explicit references (T& / const T&): alone, after a value, last of a mixed tuple
+    W.append(("bindL-xref", bind_w(None, ("xref",))))
+    W.append(("bind0-val-xcref", bind_w(0, ("val", "xcref"))))
+    W.append(("bind1-val-ref-xref", bind_w(1, ("val", "ref", "xref"))))
     # functors bound by value, first / middle / last of the tuple
     W.append(("bindL-funM", bind_w(None, ("funM",))))
     W.append(("bind0-val-funSlot", bind_w(0, ("val", "funSlot"))))
@@ -821,6 +905,7 @@ def skeleton_wrappers():
     W.append(("bret-val", bret_w("val")))
     W.append(("bret-ref", bret_w("ref")))
     W.append(("bret-cref", bret_w("cref")))
+    W.append(("bret-xref", bret_w("xref")))
     W.append(("bret-funM", bret_w("funM")))
     W.append(("bret-funSlot", bret_w("funSlot")))
 
